@@ -11,6 +11,7 @@ import (
 	"sync"
 
 	"github.com/theQRL/go-qrllib/dilithium"
+	"golang.org/x/crypto/sha3"
 )
 
 func init() {
@@ -341,6 +342,33 @@ func genC05(g *gen) {
 // ---------------------------------------------------------------- C07
 
 func genC07(g *gen) {
+
+	// ---- search: the library's key generation against an independent specification-level key generation (plain
+	// modular arithmetic, ref_dil.go), over many seeds in parallel: boundary conditions of probability 10^-4 per key
+	g.note("key generation vs an independent specification-level reference, many seeds")
+	{
+		n := 4000 // the search after a broken obligation runs the thorough size
+		if g.thorough {
+			n = 120000
+		}
+		var mu sync.Mutex
+		parallel(n, func(i int) {
+			var seed [48]byte
+			binary.BigEndian.PutUint64(seed[40:], uint64(i)+uint64(g.seed)<<32)
+			d, err := dilithium.NewDilithiumFromSeed(seed)
+			if err != nil {
+				return
+			}
+			xi := make([]byte, 32)
+			sha3.ShakeSum256(xi, seed[:])
+			pkR, skR := refKeygen(xi)
+			pk, sk := d.GetPK(), d.GetSK()
+			ok := bytes.Equal(pk[:], pkR) && bytes.Equal(sk[:], skR)
+			mu.Lock()
+			g.check(ok, "keygen-vs-reference", "key pair differs from the specification-level reference for seed "+hx(seed[:]), "dl.new k "+hx(seed[:]))
+			mu.Unlock()
+		})
+	}
 	g.note("key generation and deterministic signing against the model")
 	nseeds := 2
 	if g.thorough {
